@@ -52,6 +52,7 @@ func drawFoCfg(c *Case) foCfg {
 	cfg.stats = c.Weighted("stats", 1, 1) == 1
 	cfg.observeMut = c.Weighted("ObserveMutability", 3, 1) == 1
 	cfg.boxVals = cfg.variant != 2 && c.Weighted("boxed-values", 3, 1) == 1
+	cfg.noiseBackendCfg = c.Weighted("BackendConfig-next-to-Backend", 4, 1) == 1
 
 	return cfg
 }
